@@ -717,6 +717,9 @@ class ParallelProcess(Process):
         self.profile = profile
         self._stats_objs = stats_objs
         self._wrapped_is_step = process.is_step()
+        # A process wrapped after it entered the hierarchy (added by a
+        # structural update) already has its schema.
+        self._schema = process.schema
         assert not self.profile or self._stats_objs is not None
         # Linux's default ``fork`` start method causes a lot of random
         # issues, including python/cpython#110770 (prompted this change)
